@@ -19,8 +19,8 @@ itself (add_cert(self.cert));
 (CaseP::validate_certs, FailSafe::validate_certs, FailSafe::add_trusted_root_cert);
 (d) trust anchor / fabric binding and (e) credential installation are decided under C01-b and C08-c.
 """
-CLAUSES = ['a: every chain step checks authority link, signature, validity window and usage policy', 'b: verifier values only arise from verification', 'c: every chain user calls finalise before accepting',
-           'd: AddNOC refuses an existing (fabric id, root public key); CASE: the fabric-id comparison is mandatory', 'e: extended key usage: every required purpose looked up one by one']
+CLAUSES = ['a: every chain step checks authority link, signature, validity window and usage policy (critical-extension probe per element)', 'b: verifier values only arise from verification', 'c: every chain user calls finalise before accepting',
+           'd: AddNOC refuses an existing (fabric id, root public key); CASE: the fabric-id comparison is mandatory; UpdateNOC compares the fabric id before the update', 'e: extended key usage: every required purpose looked up one by one']
 NOT_DECIDED = ['completeness: no valid chain is refused', 'field-value semantics of each extension parser', 'issuer/subject DN linking beyond the key-id link']
 MIN_OBLIGATIONS = {'q': 28, 'd': 28, 'r': 28}
 
